@@ -255,84 +255,53 @@ Qed.
 Lemma parse_i32_range a p : parse_i32 a = Some p -> (-2147483648 <= p < 2147483648)%Z.
 Proof. apply parse_signed_range. lia. Qed.
 
-Lemma wrap32_id z : (-2147483648 <= z < 2147483648)%Z -> wrap32 z = z.
-Proof. intros H. unfold wrap32. lia. Qed.
-
-Lemma substr_pos_nonneg L p : (1 <= p < 2147483648)%Z -> substr_pos L p = (p - 1)%Z.
+(* the i64 position arithmetic and the `as usize` cast compute the documented start, for EVERY
+   integer position and every string *)
+Lemma skip_pos_from p x : skip_pos (substr_pos (length x) p) x = substr_from p x.
 Proof.
-  intros H. unfold substr_pos. rewrite wrap32_id by lia.
-  destruct (Z.ltb_spec (p - 1) 0); [lia|reflexivity].
-Qed.
-
-Lemma substr_pos_neg L p : (-2147483646 <= p < 0)%Z -> (Z.of_nat L < 2147483647)%Z ->
-  substr_pos L p = (Z.of_nat L + p)%Z.
-Proof.
-  intros H HL. unfold substr_pos, abs32. rewrite (wrap32_id (p - 1)) by lia.
-  destruct (Z.ltb_spec (p - 1) 0); [|lia].
-  rewrite (wrap32_id (Z.of_nat L)) by lia. rewrite (wrap32_id (Z.abs (p - 1))) by lia.
-  rewrite (wrap32_id (Z.of_nat L - Z.abs (p - 1))) by lia. rewrite wrap32_id by lia. lia.
-Qed.
-
-Lemma skip_pos_from p x : (Z.of_nat (length x) < 2147483647)%Z -> (-2147483648 <= p < 2147483648)%Z ->
-  skip_pos (substr_pos (length x) p) x = substr_from p x.
-Proof.
-  intros HL Hp. unfold substr_from.
+  unfold substr_from, substr_pos, skip_pos. cbv zeta.
   destruct (Z.leb_spec 1 p) as [H1|H1].
-  - rewrite substr_pos_nonneg by lia. unfold skip_pos.
+  - destruct (Z.ltb_spec (p - 1) 0); [lia|].
     destruct (Z.ltb_spec (p - 1) 0); [lia|]. rewrite drop_N_skipn. f_equal. lia.
-  - destruct (Z.ltb_spec p 0) as [H0|H0]; cbn [andb].
-    + destruct (Z_le_gt_dec (-2147483646) p) as [Hr|Hr].
-      * rewrite substr_pos_neg by lia. unfold skip_pos.
-        destruct (Z.leb_spec (- p) (Z.of_nat (length x))) as [Hq|Hq].
-        -- destruct (Z.ltb_spec (Z.of_nat (length x) + p) 0); [lia|]. rewrite drop_N_skipn. f_equal. lia.
-        -- destruct (Z.ltb_spec (Z.of_nat (length x) + p) 0); [reflexivity|lia].
-      * destruct (Z.leb_spec (- p) (Z.of_nat (length x))) as [Hq|Hq]; [lia|].
-        assert (C : p = (-2147483647)%Z \/ p = (-2147483648)%Z) by lia.
-        destruct C as [-> | ->].
-        -- unfold substr_pos, abs32. change (wrap32 (-2147483647 - 1)) with (-2147483648)%Z.
-           cbn [Z.ltb Z.compare]. change (wrap32 (Z.abs (-2147483648))) with (-2147483648)%Z.
-           rewrite (wrap32_id (Z.of_nat (length x))) by lia.
-           unfold skip_pos.
-           match goal with |- (if (?v <? 0)%Z then _ else _) = _ => destruct (Z.ltb_spec v 0) as [Hv|Hv]; [reflexivity|] end.
-           exfalso. unfold wrap32 in Hv. lia.
-        -- unfold substr_pos. change (wrap32 (-2147483648 - 1)) with 2147483647%Z.
-           cbn [Z.ltb Z.compare]. unfold skip_pos. cbn [Z.ltb Z.compare].
-           rewrite drop_N_skipn. apply skipn_all2. lia.
+  - destruct (Z.ltb_spec (p - 1) 0); [|lia].
+    destruct (Z.ltb_spec p 0) as [H0|H0]; cbn [andb].
+    + destruct (Z.leb_spec (- p) (Z.of_nat (length x))) as [Hq|Hq].
+      * destruct (Z.ltb_spec (Z.of_nat (length x) - Z.abs (p - 1) + 1) 0); [lia|].
+        rewrite drop_N_skipn. f_equal. lia.
+      * destruct (Z.ltb_spec (Z.of_nat (length x) - Z.abs (p - 1) + 1) 0); [reflexivity|lia].
     + assert (p = 0%Z) by lia. subst p.
-      unfold substr_pos, abs32. change (wrap32 (0 - 1)) with (-1)%Z. cbn [Z.ltb Z.compare].
-      change (wrap32 (Z.abs (-1))) with 1%Z. rewrite (wrap32_id (Z.of_nat (length x))) by lia.
-      rewrite (wrap32_id (Z.of_nat (length x) - 1)) by lia. rewrite wrap32_id by lia.
-      unfold skip_pos. destruct (Z.ltb_spec (Z.of_nat (length x) - 1 + 1) 0); [reflexivity|].
+      destruct (Z.ltb_spec (Z.of_nat (length x) - Z.abs (0 - 1) + 1) 0); [reflexivity|].
       rewrite drop_N_skipn. apply skipn_all2. lia.
 Qed.
 
-(* SUBSTRING(s, p) and SUBSTRING(s, p, len) for every position the i32 parser accepts, under
-   the only assumption that the string is shorter than 2^31 - 1 characters.
+(* SUBSTRING(s, p) and SUBSTRING(s, p, len) for EVERY position the i32 parser accepts (including
+   -2147483648 and -2147483647, where the former i32 arithmetic overflowed) and EVERY string: no
+   bound on the length of the string is needed.
    Deviation from the documentation kept visible: an explicit length 0 means "to the end"
    (substr_len0 below). *)
 Theorem substr_model : forall e now arg a p,
-  (Z.of_nat (length arg) < 2147483647)%Z -> parse_i32 a = Some p ->
+  parse_i32 a = Some p ->
   get_value_gen e now FnSubstring arg [a] = Ok (VStr (substr_spec p None arg))
   /\ forall l n rest, parse_usize l = Some n -> 1 <= n ->
        get_value_gen e now FnSubstring arg (a :: l :: rest) = Ok (VStr (substr_spec p (Some (N.to_nat n)) arg)).
 Proof.
-  intros e now arg a p HL Hp. pose proof (parse_i32_range a p Hp) as R.
+  intros e now arg a p Hp.
   split.
   - cbn [get_value_gen]. unfold substring. rewrite Hp. cbn [bind nth_error].
-    cbn [N.ltb N.compare]. rewrite skip_pos_from by assumption. reflexivity.
+    cbn [N.ltb N.compare]. rewrite skip_pos_from. reflexivity.
   - intros l n rest Hn Hn1. cbn [get_value_gen]. unfold substring. rewrite Hp. cbn [bind nth_error].
     rewrite Hn. cbn [bind]. destruct (N.ltb_spec 0 n); [|lia].
-    rewrite skip_pos_from by assumption. rewrite take_N_firstn. reflexivity.
+    rewrite skip_pos_from. rewrite take_N_firstn. reflexivity.
 Qed.
 
 (* p >= 1: characters p, p+1, ... (1-based) *)
 Corollary substr_positive : forall e now arg a p,
-  (Z.of_nat (length arg) < 2147483647)%Z -> parse_i32 a = Some p -> (1 <= p)%Z ->
+  parse_i32 a = Some p -> (1 <= p)%Z ->
   get_value_gen e now FnSubstring arg [a] = Ok (VStr (skipn (Z.to_nat (p - 1)) arg))
   /\ forall l n, parse_usize l = Some n -> 1 <= n ->
        get_value_gen e now FnSubstring arg [a; l] = Ok (VStr (firstn (N.to_nat n) (skipn (Z.to_nat (p - 1)) arg))).
 Proof.
-  intros e now arg a p HL Hp H1. destruct (substr_model e now arg a p HL Hp) as [A B].
+  intros e now arg a p Hp H1. destruct (substr_model e now arg a p Hp) as [A B].
   assert (F : substr_from p arg = skipn (Z.to_nat (p - 1)) arg).
   { unfold substr_from. destruct (Z.leb_spec 1 p); [reflexivity|lia]. }
   split.
@@ -342,11 +311,11 @@ Qed.
 
 (* p < 0: the last |p| characters (then cut to len); nothing if the string is shorter *)
 Corollary substr_negative : forall e now arg a p,
-  (Z.of_nat (length arg) < 2147483647)%Z -> parse_i32 a = Some p -> (p < 0)%Z ->
+  parse_i32 a = Some p -> (p < 0)%Z ->
   get_value_gen e now FnSubstring arg [a]
   = Ok (VStr (if (- p <=? Z.of_nat (length arg))%Z then skipn (length arg - Z.to_nat (- p)) arg else [])).
 Proof.
-  intros e now arg a p HL Hp H1. destruct (substr_model e now arg a p HL Hp) as [A _].
+  intros e now arg a p Hp H1. destruct (substr_model e now arg a p Hp) as [A _].
   rewrite A. unfold substr_spec, substr_from.
   destruct (Z.leb_spec 1 p); [lia|]. destruct (Z.ltb_spec p 0); [|lia]. cbn [andb].
   destruct (Z.leb_spec (- p) (Z.of_nat (length arg))); [|reflexivity].
@@ -384,6 +353,9 @@ Example substr_ex : get_value 0 FnSubstring (s "h" ++ [233] ++ s "llo") [s "2"; 
   /\ get_value 0 FnSubstring (s "hello") [s "0"] = Ok (VStr [])
   /\ get_value 0 FnSubstring (s "hello") [s "6"] = Ok (VStr [])
   /\ get_value 0 FnSubstring (s "hello") [s "-2147483648"] = Ok (VStr [])
+  /\ get_value 0 FnSubstring (s "hello") [s "-2147483647"] = Ok (VStr [])
+  /\ get_value 0 FnSubstring (s "hello") [s "-2147483647"; s "3"] = Ok (VStr [])
+  /\ get_value 0 FnSubstring (s "hello") [s "2147483647"] = Ok (VStr [])
   /\ get_value 0 FnSubstring (s "hello") [s "2"; s "0"] = Ok (VStr (s "ello"))
   /\ get_value 0 FnSubstring (s "hello") [s "2"; s "18446744073709551615"] = Ok (VStr (s "ello")).
 Proof. vm_compute. repeat split; reflexivity. Qed.
@@ -1189,38 +1161,65 @@ Proof. vm_compute. repeat split; reflexivity. Qed.
 
 Definition no_crash {A} (r : res A) : Prop := match r with Ok _ | Exit2 _ => True | _ => False end.
 
-(* KNOWN FINDING (reproduced on the real code, see date_fn_crash below): parse_datetime panics
-   on some inputs, and YEAR / MONTH / DAY / DAYOFWEEK inherit the panic. *)
+(* "parse_datetime crashes on this argument": never the case any more ([date_crash_never]);
+   it used to hold for short signed non-numbers and for dates written with non-ASCII digits *)
 Definition date_crash (now : Z) (arg : str) : bool :=
   match parse_datetime now arg with
   | Det (Ok _) | Det (Exit2 _) | Datetime.Unmodelled => false
   | _ => true
   end.
 
-(* the unmodelled chrono_english component is assumed not to crash *)
+Theorem date_crash_never : forall now arg, date_crash now arg = false.
+Proof.
+  intros now arg. unfold date_crash.
+  pose proof (parse_datetime_ok_err_or_unmodelled now arg) as H.
+  destruct (parse_datetime now arg) as [|[ab|m|st|st|]]; try reflexivity; contradiction.
+Qed.
+
+(* the unmodelled chrono_english component is ASSUMED not to crash.
+   FINDING (py/funcsdiff.py --datetime): the real chrono_english 0.1.7 does not satisfy this
+   assumption.  On some texts of 5 bytes or more in which DATE_REGEX finds nothing -- exactly the
+   texts on which the model answers [Unmodelled] -- `parse_date_string` panics: "invalid time"
+   (e.g. "-0.79", "12:61", "25:00:00") and "end byte index _ is not a char boundary" (non-ASCII
+   text such as "-415" ++ [233] or "ab" ++ [0x661] ++ "cd").  Those panics are inside the
+   third-party crate, not at any unwrap site of parse_datetime / get_value. *)
 Definition ext_sane (e : option ext) : Prop :=
   match e with Some x => forall a, no_crash (x_chrono x a) | None => True end.
 
-Lemma date_part_no_crash e now arg k : ext_sane e -> date_crash now arg = false ->
-  no_crash (date_part e now arg k).
+(* YEAR / MONTH / DAY / DAYOFWEEK of ANY argument: an integer, the empty value, or (without an
+   [ext]) the "unmodelled" marker for chrono_english; never a panic *)
+Lemma date_part_outcome e now arg k : ext_sane e ->
+  match date_part e now arg k with
+  | Ok (VInt _) | Ok VEmpty => True
+  | Exit2 m => starts_with msg_unmodelled m = true
+  | _ => False
+  end.
 Proof.
-  intros He Hc. unfold date_part, date_crash in *.
-  destruct (parse_datetime now arg) as [|[[a b]|m|st|st|]]; try discriminate.
-  - unfold with_ext. destruct e as [x|]; [|exact I]. specialize (He arg).
+  intros He. unfold date_part.
+  pose proof (parse_datetime_ok_err_or_unmodelled now arg) as H.
+  destruct (parse_datetime now arg) as [|[[a b]|m|st|st|]]; try contradiction.
+  - unfold with_ext. destruct e as [x|]; [|reflexivity]. specialize (He arg).
     destruct (x_chrono x arg) as [[a b]|m|st|st|]; try contradiction; [exact I|].
-    destruct (starts_with msg_unmodelled m); exact I.
+    destruct (starts_with msg_unmodelled m) eqn:U; [exact U|exact I].
   - exact I.
-  - destruct (starts_with msg_unmodelled m); exact I.
+  - destruct (starts_with msg_unmodelled m) eqn:U; [exact U|exact I].
 Qed.
 
+Lemma date_part_no_crash e now arg k : ext_sane e -> no_crash (date_part e now arg k).
+Proof.
+  intros He. pose proof (date_part_outcome e now arg k He) as H.
+  destruct (date_part e now arg k) as [v|m|st|st|]; try contradiction; exact I.
+Qed.
+
+(* EVERY argument, for every modelled function: a value or a status-2 diagnostic, never a panic
+   (no side condition on the argument of the date functions any more) *)
 Theorem wrong_kind_never_panics : forall e now f arg args,
   modelled f = true -> ext_sane e ->
-  (is_date_fn f = true -> date_crash now arg = false) ->
   no_crash (get_value_gen e now f arg args).
 Proof.
-  intros e now f arg args M He Hd.
+  intros e now f arg args M He.
   destruct f; try discriminate M; cbn [get_value_gen]; try exact I;
-    try (apply date_part_no_crash; [exact He|apply Hd; reflexivity]).
+    try (apply date_part_no_crash; exact He).
   - unfold case_fn, with_ext. destruct (case_modelled arg); [exact I|]. destruct e; exact I.
   - unfold case_fn, with_ext. destruct (case_modelled arg); [exact I|]. destruct e; exact I.
   - unfold with_ext. destruct (case_modelled arg); [exact I|]. destruct e; exact I.
@@ -1251,13 +1250,40 @@ Proof.
   - destruct (filter _ _); exact I.
 Qed.
 
-(* the finding: with the excluded inputs the real code (and the model) panics *)
-Theorem date_fn_crash : forall now,
-  date_crash now (s "+a") = true
-  /\ get_value now FnYear (s "+a") [] = Panic Datetime.site_days
-  /\ get_value now FnDayOfWeek (s "-x") [] = Panic Datetime.site_days
-  /\ get_value now FnMonth [0x662; 0x660; 0x662; 0x663; 45; 0x661; 0x662; 45; 0x661; 0x661] [] = Panic Datetime.site_year.
-Proof. intros now. repeat split; reflexivity. Qed.
+Theorem date_fns_outcome : forall e now f arg args, ext_sane e -> is_date_fn f = true ->
+  match get_value_gen e now f arg args with
+  | Ok (VInt _) | Ok VEmpty => True
+  | Exit2 m => starts_with msg_unmodelled m = true
+  | _ => False
+  end.
+Proof.
+  intros e now f arg args He Hf. destruct f; try discriminate Hf; cbn [get_value_gen];
+    apply date_part_outcome; exact He.
+Qed.
+
+Corollary date_fns_never_panic : forall e now f arg args, ext_sane e -> is_date_fn f = true ->
+  no_crash (get_value_gen e now f arg args).
+Proof.
+  intros e now f arg args He Hf. apply wrong_kind_never_panics; [destruct f; try discriminate; reflexivity|exact He].
+Qed.
+
+(* the inputs on which the real code (and the model) used to panic: now the empty value *)
+Theorem date_fn_former_crashes : forall now,
+  get_value now FnYear (s "+a") [] = Ok VEmpty
+  /\ get_value now FnDayOfWeek (s "-x") [] = Ok VEmpty
+  /\ get_value now FnDay (s "+1.5") [] = Ok VEmpty
+  /\ get_value now FnMonth [0x661; 0x662] [] = Ok VEmpty
+  /\ is_unmodelled (get_value now FnMonth [0x662; 0x660; 0x662; 0x663; 45; 0x661; 0x662; 45; 0x661; 0x661] []) = true
+  /\ get_value now FnYear (s "2023-12-11 " ++ [0x661]) [] = Ok (VInt 2023).
+Proof.
+  intros now.
+  assert (G : forall f x, is_date_fn f = true -> (byte_len x < 5)%Z -> Datetime.parse_i64 x = None ->
+              get_value now f x [] = Ok VEmpty).
+  { intros f x Hf Hb Hp. destruct f; try discriminate Hf; cbn [get_value get_value_gen]; unfold date_part;
+      rewrite (signed_not_a_number now x Hb Hp); reflexivity. }
+  split; [apply G; reflexivity|]. split; [apply G; reflexivity|]. split; [apply G; reflexivity|].
+  split; [apply G; reflexivity|]. split; reflexivity.
+Qed.
 
 (* the status-2 diagnostics for arguments of the wrong kind *)
 Example wrong_kind_ex :
@@ -1269,156 +1295,6 @@ Example wrong_kind_ex :
   /\ get_value 0 FnYear (s "soon") [] = Ok VEmpty
   /\ get_value 0 FnLength (s "12") [] = Ok (VInt 2).
 Proof. vm_compute. repeat split; reflexivity. Qed.
-
-(* ========================================================================= *)
-(* Exactly which ASCII arguments crash the date functions                    *)
-(* ========================================================================= *)
-
-Lemma nd_nonascii_high : forallb (fun r => 128 <=? fst r) nd_nonascii = true.
-Proof. vm_compute. reflexivity. Qed.
-
-Lemma nd_ascii c : c < 128 -> is_nd c = is_digit c.
-Proof.
-  intros H. unfold is_nd.
-  assert (E : existsb (fun r => (fst r <=? c) && (c <=? snd r)) nd_nonascii = false).
-  { pose proof nd_nonascii_high as A. induction nd_nonascii as [|r t IH]; [reflexivity|].
-    cbn [forallb] in A. apply andb_true_iff in A. destruct A as [A1 A2]. apply N.leb_le in A1.
-    cbn [existsb]. rewrite (IH A2), orb_false_r.
-    assert (L : (fst r <=? c) = false) by (apply N.leb_gt; lia). now rewrite L. }
-  rewrite E. apply orb_false_r.
-Qed.
-
-Definition good (g : str) : Prop := g <> [] /\ forallb is_digit g = true.
-Definition good_opt (g : option str) : Prop := match g with Some ds => good ds | None => True end.
-
-Lemma take_digits_good n : forall l, ascii l = true ->
-  forallb is_digit (fst (take_digits n l)) = true /\ ascii (snd (take_digits n l)) = true.
-Proof.
-  unfold ascii. induction n as [|n IH]; intros l A; [destruct l; now split|].
-  destruct l as [|c r]; [now split|]. cbn [take_digits].
-  cbn [forallb] in A. apply andb_true_iff in A. destruct A as [Ac Ar].
-  rewrite nd_ascii by (now apply N.ltb_lt). destruct (is_digit c) eqn:D.
-  - destruct (IH r Ar) as [F S]. destruct (take_digits n r) as [ds rest]. cbn [fst snd forallb] in *.
-    now rewrite D, F.
-  - cbn [fst snd forallb]. split; [reflexivity|]. now rewrite Ac, Ar.
-Qed.
-
-Lemma opt_char_ascii c l : ascii l = true -> ascii (opt_char c l) = true.
-Proof.
-  unfold ascii, opt_char. destruct l as [|x r]; [trivial|]. intros A. destruct (x =? c); [|exact A].
-  cbn [forallb] in A. apply andb_true_iff in A. tauto.
-Qed.
-
-Lemma opt_group_good l : ascii l = true ->
-  good_opt (fst (opt_group l)) /\ ascii (snd (opt_group l)) = true.
-Proof.
-  intros A. unfold opt_group. destruct (take_digits_good 2 l A) as [F S].
-  destruct (take_digits 2 l) as [ds rest]. cbn [fst snd] in *. split; [|exact S].
-  destruct ds as [|d ds]; [exact I|]. split; [discriminate|exact F].
-Qed.
-
-Lemma scan_time_good l : ascii l = true ->
-  let '(h, mi, se) := scan_time l in good_opt h /\ good_opt mi /\ good_opt se.
-Proof.
-  intros A. unfold scan_time.
-  destruct (opt_group_good _ (opt_char_ascii 32 l A)) as [G1 A1].
-  destruct (opt_group (opt_char 32 l)) as [h r1]. cbn [fst snd] in *.
-  destruct (opt_group_good _ (opt_char_ascii 58 r1 A1)) as [G2 A2].
-  destruct (opt_group (opt_char 58 r1)) as [mi r2]. cbn [fst snd] in *.
-  destruct (opt_group_good _ (opt_char_ascii 58 r2 A2)) as [G3 _].
-  destruct (opt_group (opt_char 58 r2)) as [se r3]. cbn [fst snd] in *. now repeat split.
-Qed.
-
-Definition good_caps (c : caps) : Prop :=
-  good (c_year c) /\ good (c_month c) /\ good (c_day c) /\ good_opt (c_hour c) /\ good_opt (c_min c) /\ good_opt (c_sec c).
-
-Lemma ascii_tail c l : ascii (c :: l) = true -> ascii l = true.
-Proof. unfold ascii. cbn [forallb]. intros A. apply andb_true_iff in A. tauto. Qed.
-
-Lemma match_at_good l c : ascii l = true -> match_at l = Some c -> good_caps c.
-Proof.
-  intros A. unfold match_at.
-  destruct (take_digits_good 4 l A) as [Fy Ay]. destruct (take_digits 4 l) as [yd r1]. cbn [fst snd] in *.
-  destruct (Nat.eqb_spec (length yd) 4) as [Ly|]; [|discriminate].
-  destruct r1 as [|c1 r2]; [discriminate|]. destruct (is_sep c1); [|discriminate].
-  pose proof (ascii_tail _ _ Ay) as A2.
-  destruct (take_digits_good 2 r2 A2) as [Fm Am]. destruct (take_digits 2 r2) as [md r3]. cbn [fst snd] in *.
-  destruct md as [|m0 md]; [discriminate|]. destruct r3 as [|c2 r4]; [discriminate|].
-  destruct (is_sep c2); [|discriminate].
-  pose proof (ascii_tail _ _ Am) as A4.
-  destruct (take_digits_good 2 r4 A4) as [Fd Ad]. destruct (take_digits 2 r4) as [dd r5]. cbn [fst snd] in *.
-  destruct dd as [|d0 dd]; [discriminate|].
-  pose proof (scan_time_good r5 Ad) as St. destruct (scan_time r5) as [[h mi] se].
-  intros [= <-]. unfold good_caps, good. cbn [c_year c_month c_day c_hour c_min c_sec].
-  destruct St as (G1 & G2 & G3). repeat split; try assumption; try discriminate.
-  intros ->. discriminate.
-Qed.
-
-Lemma find_date_good l : forall c, ascii l = true -> find_date l = Some c -> good_caps c.
-Proof.
-  induction l as [|x l IH]; intros c A; cbn [find_date].
-  - destruct (match_at []) eqn:M; [|discriminate]. intros [= <-]. now apply (match_at_good [] _ A).
-  - destruct (match_at (x :: l)) eqn:M.
-    + intros [= <-]. now apply (match_at_good _ _ A).
-    + apply IH. now apply ascii_tail in A.
-Qed.
-
-Lemma parse_dec_acc_good g : forall acc, forallb is_digit g = true -> exists v, parse_dec_acc acc g = Some v.
-Proof.
-  induction g as [|d g IH]; intros acc F; [now exists acc|].
-  cbn [forallb] in F. apply andb_true_iff in F. destruct F as [D F]. cbn [parse_dec_acc]. rewrite D. now apply IH.
-Qed.
-
-Lemma parse_dec_good g : good g -> exists v, parse_dec g = Some v.
-Proof. intros [Hne F]. unfold parse_dec. destruct g; [congruence|]. now apply parse_dec_acc_good. Qed.
-
-Lemma opt_field_good st g lo hi : good_opt g -> exists p, opt_field st g lo hi = Ok p.
-Proof.
-  unfold opt_field. destruct g as [ds|]; [|now eexists]. intros G.
-  destruct (parse_dec_good ds G) as [v E]. rewrite E. cbn [unwrap bind]. now eexists.
-Qed.
-
-Lemma eval_caps_no_crash x c : good_caps c -> no_crash (eval_caps x c).
-Proof.
-  intros (Gy & Gm & Gd & Gh & Gmi & Gs). unfold eval_caps.
-  destruct (parse_dec_good _ Gy) as [vy Ey]. destruct (parse_dec_good _ Gm) as [vm Em].
-  destruct (parse_dec_good _ Gd) as [vd Ed]. rewrite Ey, Em, Ed. cbn [unwrap bind].
-  destruct (opt_field_good site_hour _ 0%Z 23%Z Gh) as [ph Eh]. rewrite Eh.
-  destruct (opt_field_good site_min _ 0%Z 59%Z Gmi) as [pm Emi]. rewrite Emi.
-  destruct (opt_field_good site_sec _ 0%Z 59%Z Gs) as [ps Es]. rewrite Es. cbn [bind].
-  destruct (valid_date vy vm vd); [|exact I].
-  destruct (with_hms _ _ _ _); [|exact I]. destruct (with_hms _ _ _ _); exact I.
-Qed.
-
-(* For an ASCII argument the date functions crash EXACTLY when it is a 2..4 character string that
-   starts with '+' or '-', contains no date, and is not a signed integer ("+a", "-x", "+1.5", "--1") *)
-Theorem date_crash_ascii : forall now arg, ascii arg = true -> date_crash now arg = true ->
-  (2 <= length arg <= 4)%nat /\ starts_with [43] arg || starts_with [45] arg = true
-  /\ Datetime.parse_i64 arg = None /\ find_date arg = None.
-Proof.
-  intros now arg A. unfold date_crash, parse_datetime.
-  destruct (str_eqb arg lit_today); [discriminate|]. destruct (str_eqb arg lit_yesterday); [discriminate|].
-  destruct (find_date arg) as [c|] eqn:F.
-  - pose proof (eval_caps_no_crash arg c (find_date_good arg c A F)) as N.
-    destruct (eval_caps arg c); try contradiction; discriminate.
-  - assert (BL : byte_len arg = Z.of_nat (length arg)).
-    { apply byte_len_ascii. unfold ascii in A. rewrite forallb_forall in A. apply Forall_forall.
-      intros c Hc. apply N.ltb_lt. now apply A. }
-    rewrite BL. destruct (Z.leb_spec 5 (Z.of_nat (length arg))); [discriminate|].
-    destruct (Z.leb_spec 2 (Z.of_nat (length arg))); cbn [andb]; [|discriminate].
-    destruct (starts_with [43] arg || starts_with [45] arg) eqn:S; [|discriminate].
-    destruct (Datetime.parse_i64 arg); [discriminate|]. intros _. repeat split; lia.
-Qed.
-
-Corollary date_fns_never_panic_on_ascii : forall e now f arg args, ext_sane e -> is_date_fn f = true ->
-  ascii arg = true ->
-  ~ ((2 <= length arg <= 4)%nat /\ starts_with [43] arg || starts_with [45] arg = true /\ Datetime.parse_i64 arg = None) ->
-  no_crash (get_value_gen e now f arg args).
-Proof.
-  intros e now f arg args He Hf A Hn. apply wrong_kind_never_panics; [destruct f; try discriminate; reflexivity|exact He|].
-  intros _. destruct (date_crash now arg) eqn:C; [|reflexivity].
-  exfalso. apply Hn. destruct (date_crash_ascii now arg A C) as (H1 & H2 & H3 & _). now repeat split.
-Qed.
 
 (* ========================================================================= *)
 (* error_exit paths of POWER / LOG; default second arguments                 *)
@@ -1454,11 +1330,6 @@ Example libm_exact_ex :
   /\ observe FnSqrt (get_value 0 FnSqrt (s "-1") []) = (0, 2, s "NaN")
   /\ is_unmodelled (get_value 0 FnExp (s "1") []) = true
   /\ is_unmodelled (get_value 0 FnPower (s "2") [s "0.5"]) = true.
-Proof. vm_compute. repeat split; reflexivity. Qed.
-
-(* debug builds only: the i32 arithmetic of SUBSTRING overflows for these two positions *)
-Example substr_debug_overflow_ex : substr_debug_overflow [s "-2147483648"] = true
-  /\ substr_debug_overflow [s "-2147483647"] = true /\ substr_debug_overflow [s "-2147483646"] = false.
 Proof. vm_compute. repeat split; reflexivity. Qed.
 
 (* ========================================================================= *)
@@ -1503,8 +1374,9 @@ Print Assumptions format_time_bad.
 Print Assumptions dow_range.
 Print Assumptions year_month_day.
 Print Assumptions wrong_kind_never_panics.
-Print Assumptions date_fn_crash.
-Print Assumptions date_crash_ascii.
-Print Assumptions date_fns_never_panic_on_ascii.
+Print Assumptions date_crash_never.
+Print Assumptions date_fns_outcome.
+Print Assumptions date_fns_never_panic.
+Print Assumptions date_fn_former_crashes.
 Print Assumptions power_log_bad_argument.
 Print Assumptions power_default_exponent.
